@@ -9,7 +9,9 @@ RULE = (
     "Hypothesis-generated model specs (profiles W and F: 1-8 tasks, all four dependency kinds, "
     "0-6 workers in 1-3 teams, 0-4 workplaces with 0-3 facilities, cost rates incl. 0, per-resource "
     "and project-wide absence lists, all nine task rules, runs cut by max_time too) simulated once; "
-    "every cost log entry of every level is recomputed from the state logs and the spec. "
+    "every cost log entry of every level is recomputed from the state logs and the spec; the same is re-checked "
+    "after 0-2 generated remove/insert_absence_time_list edits of the result (indices inside the run, at its last "
+    "step and just beyond its end). "
     "Non-trivial = at least two resources with different non-zero rates of which one is logged "
     "WORKING at a step where another one is idle or absent; distinct by canonical spec hash."
 )
@@ -22,8 +24,23 @@ CFG = gen.Cfg(facilities=True, float_mode=5, max_time=[40, 80], abs_p=2, abs_siz
 
 
 def strategy(tier):
+    from hypothesis import strategies as st
+
     cfg = CFG if tier == "quick" else CFG.copy(max_tasks=12, max_workers=8, float_mode=3)
-    return gen.model_spec(cfg)
+
+    @st.composite
+    def case(draw):
+        spec = draw(gen.model_spec(cfg))
+        # the same accounting must hold after the result has been edited (C18 operations)
+        spec["edits"] = draw(
+            st.lists(
+                st.one_of(st.just(["remove"]), st.lists(st.integers(0, 60), min_size=1, max_size=3).map(lambda l: ["insert", l])),
+                max_size=2,
+            )
+        )
+        return spec
+
+    return case()
 
 
 def budget(tier):
@@ -44,14 +61,28 @@ def check(spec):
     p = h.project
     S.simulate(p, spec["opts"])
     check_costs(spec, h, res)
+    nt = res.nontrivial
+    for op in spec.get("edits", []):
+        if res.violations:
+            break
+        n = len(p.cost_list)
+        if op[0] == "remove":
+            p.remove_absence_time_list()
+        else:
+            # indices 0..n+1: inside the run, the last step, and just beyond the end
+            p.insert_absence_time_list(sorted(set(x % (n + 2) for x in op[1])))
+        res.cls("edited_" + op[0])
+        check_costs(spec, h, res, absn=set(), where=" after %s" % op)
+    res.nontrivial = nt
     return res
 
 
-def check_costs(spec, h, res):
+def check_costs(spec, h, res, absn=None, where=""):
     p = h.project
     tol = 1e-9 if spec.get("float_mode") else 0.0
     n = len(p.cost_list)
-    absn = set(spec["opts"].get("abs", []))
+    if absn is None:
+        absn = set(spec["opts"].get("abs", []))
     res.stats["steps"] += n
     res.cls("facilities", bool(spec.get("facs")))
     res.cls("project_absence_inside_run", any(a < n for a in absn))
@@ -61,7 +92,7 @@ def check_costs(spec, h, res):
         tol and len(p.cost_list) == len(p.organization.cost_list)
         and all(_eq(a, b, tol) for a, b in zip(p.cost_list, p.organization.cost_list))
     ):
-        res.fail("C07.project_eq_org", "project.cost_list != organization.cost_list")
+        res.fail("C07.project_eq_org", "project.cost_list %s != organization.cost_list %s%s" % (p.cost_list[:8], p.organization.cost_list[:8], where))
     groups = []  # (kind, group object, members, member specs)
     for i, tm in enumerate(h.teams):
         mem = [(w, spec["workers"][k]) for k, w in enumerate(h.workers) if spec["workers"][k]["team"] == i]
